@@ -259,3 +259,23 @@ def gen_history(rng, cfg, n_ops, req_kinds, weights=None, fault_p=0.55,
                 ops.append({'op': 'wait', 'kind': rng.choice(['time', 'steps']),
                             'n': rng.choice([1, 2, 5])})
     return ops
+
+
+def gen_hook_script(rng, n=6, bad_p=0.35):
+    """outcome script of one hook: mostly 'true', sometimes false / raise at
+    some call"""
+    s = ['true'] * n
+    if rng.random() < bad_p:
+        for _ in range(rng.choice([1, 1, 2])):
+            s[rng.randrange(n)] = rng.choice(['false', 'raise'])
+    return s
+
+
+def gen_hooks(rng, names=('before_start', 'before_spawn', 'after_spawn',
+                          'after_start'), p=0.5, bad_p=0.35):
+    hooks = {}
+    for h in names:
+        if rng.random() < p:
+            hooks[h] = {'script': gen_hook_script(rng, bad_p=bad_p),
+                        'ignore': rng.random() < 0.3}
+    return hooks
